@@ -145,6 +145,9 @@ def tlc_simulate(module, cfg, workdir, *, num, depth, seed, timeout=300):
     open(tmp, "w").write(base)
     rc, out, wall = tlc_run(module, tmp, workdir, workers=1, timeout=timeout,
                             extra=["-simulate", "num=%d" % num, "-depth", str(depth), "-seed", str(seed)])
+    if re.search(r"^Error: ", out, re.M):
+        sys.stdout.write(out[-3000:])
+        raise ToolError("simulation of %s (%s) ended with a TLC error" % (module, os.path.basename(cfg)))
     behaviours = []
     for m in re.finditer(r'<<"REPLAY", "(.*)">>', out):
         b = json.loads(m.group(1).encode().decode("unicode_escape"))
